@@ -1672,7 +1672,12 @@ skip_digit_separator(int c) {
 int CPPPreprocessor::
 process_directive(int c) {
   assert(c == '#');
-  c = skip_whitespace(get());
+  // Skip blanks and comments after the '#', but stay on this line: a '#' on
+  // a line of its own is the null directive.
+  c = skip_comment(get());
+  while (c == ' ' || c == '\t') {
+    c = skip_comment(get());
+  }
 
   int begin_line = get_line_number();
   int begin_column = get_col_number();
@@ -1717,8 +1722,8 @@ process_directive(int c) {
     handle_include_directive(args, loc);
   } else if (command == "pragma") {
     handle_pragma_directive(args, loc);
-  } else if (command == "ident") {
-    // Quietly ignore idents.
+  } else if (command == "ident" || command.empty()) {
+    // Quietly ignore idents and the null directive.
   } else if (command == "error") {
     handle_error_directive(args, loc);
   } else if (command == "warning") {
@@ -2060,7 +2065,11 @@ skip_false_if_block(bool consider_elifs) {
   int c = skip_comment(get());
   while (c != EOF) {
     if (c == '#' && _start_of_line) {
-      c = skip_whitespace(get());
+      // Stay on this line (see process_directive).
+      c = skip_comment(get());
+      while (c == ' ' || c == '\t') {
+        c = skip_comment(get());
+      }
 
       YYLTYPE loc;
       loc.file = get_file();
